@@ -50,8 +50,21 @@ func genE2E(r *Rng, n int, tier string) []Case {
 			l.lens[0] = l.pl + 7
 			l.total = l.pl + 7
 		}
-		src := r.Pick2("peer", "peer", "web", "both")
-		magnet := r.Chance(25) && src != "web"
+		src := r.Pick2("peer", "peer", "web", "both", "web2")
+		if src == "web2" {
+			// a lying web seed (same sizes, wrong bytes) next to an honest one; enough pieces for multi-piece ranges
+			// (ranges are numPieces/20 long) and pieces big enough that the source is well into its next piece
+			// when the verdict on the previous one arrives
+			l = layout{pl: 262144}
+			nf2 := r.Range(1, 3)
+			for j := 0; j < nf2; j++ {
+				ln := r.Range(40, 70)*l.pl/nf2 + r.Pick(0, 1, 777)
+				l.lens = append(l.lens, ln)
+				l.pads = append(l.pads, false)
+				l.total += ln
+			}
+		}
+		magnet := r.Chance(25) && src != "web" && src != "web2"
 		cases = append(cases, Case{ID: fmt.Sprintf("e2e-%d", i+1), Ops: []string{
 			fmt.Sprintf("e2e pl=%d files=%s seq=%s enc=%s magnet=%s src=%s seed=%d", l.pl, l.filesArg(), b01(r.Chance(40)),
 				r.Pick2("plain", "prefer", "force"), b01(magnet), src, r.Intn(1<<30))}})
@@ -142,7 +155,7 @@ func e2eOne(m map[string]string) string {
 	}
 	ib, _ := bencode.EncodeBytes(info)
 	meta := map[string]interface{}{"info": bencode.RawMessage(ib)}
-	usePeer := m["src"] != "web"
+	usePeer := m["src"] != "web" && m["src"] != "web2"
 	useWeb := m["src"] != "peer"
 	var srv *http.Server
 	if useWeb {
@@ -153,7 +166,32 @@ func e2eOne(m map[string]string) string {
 		srv = &http.Server{Handler: http.FileServer(http.Dir(filepath.Join(seedDir, "data")))}
 		go srv.Serve(ln) // nolint
 		defer srv.Close()
-		meta["url-list"] = []string{fmt.Sprintf("http://%s/", ln.Addr().String())}
+		urls := []string{fmt.Sprintf("http://%s/", ln.Addr().String())}
+		if m["src"] == "web2" {
+			// the lying web seed serves files of the right sizes with wrong content
+			badDir := filepath.Join(root, "bad")
+			off := 0
+			for i, fl := range lens {
+				if !pads[i] {
+					bp := filepath.Join(badDir, fileName(i))
+					_ = os.MkdirAll(filepath.Dir(bp), 0o755)
+					bad := append([]byte(nil), content[off:off+fl]...)
+					for j := range bad {
+						bad[j] ^= 0xA5
+					}
+					_ = os.WriteFile(bp, bad, 0o644)
+				}
+				off += fl
+			}
+			ln2, err := net.Listen("tcp4", "127.0.0.1:0")
+			if err == nil {
+				srv2 := &http.Server{Handler: http.FileServer(http.Dir(badDir))}
+				go srv2.Serve(ln2) // nolint
+				defer srv2.Close()
+				urls = append([]string{fmt.Sprintf("http://%s/", ln2.Addr().String())}, urls...)
+			}
+		}
+		meta["url-list"] = urls
 	}
 	tb, _ := bencode.EncodeBytes(meta)
 
